@@ -29,7 +29,7 @@ def tyParamL : Ty → List Bytes
   | .int lo hi => intParamL lo hi
   | .flt lo hi => fltParamL lo hi
   | .enum ci vs => intKey (enumKeys ci vs).length :: dedupS (sortB (enumKeys ci vs))
-  | .arr e lo hi => (if e.isAny ∧ ¬ (lo = 0 ∧ hi = 0) then [] else [tyKey e]) ++
+  | .arr e lo hi => (if (e.isAny ∧ ¬ (lo = 0 ∧ hi = 0)) ∨ (e.isUnit ∧ (lo = 0 ∧ hi = 0)) then [] else [tyKey e]) ++
       (if lo = 0 ∧ hi = maxInt then [] else sizeParamL lo hi)
   | .var ts => intKey ts.length :: dedupS (sortB (ts.map tyKey))
   | .tup ts sz => ts.map tyKey ++ sizeParamL (goaSize ts.length sz).1 (goaSize ts.length sz).2
@@ -276,6 +276,30 @@ theorem optParam_iff {e e' : Ty} (ih : tyKey e = tyKey e' ↔ tyEq e e' = true) 
   · rw [isAny_eq h, tyEq_any_left, h']; simp
   · rw [isAny_eq h, isAny_eq h']; simp [tyEq]
 
+theorem isUnit_eq {t : Ty} (h : t.isUnit = true) : t = .nul .unit := by
+  cases t with
+  | nul k => cases k <;> simp [Ty.isUnit] at h; rfl
+  | _ => simp [Ty.isUnit] at h
+
+theorem tyEq_unit_left (t : Ty) : tyEq (.nul .unit) t = t.isUnit := by
+  cases t with
+  | nul k => cases k <;> simp [tyEq, Ty.isUnit]
+  | _ => simp [tyEq, Ty.isUnit]
+
+theorem tyEq_unit_right (t : Ty) : tyEq t (.nul .unit) = t.isUnit := by
+  cases t with
+  | nul k => cases k <;> simp [tyEq, Ty.isUnit]
+  | _ => simp [tyEq, Ty.isUnit]
+
+/-- the leading type parameter of `Array[T, 0, 0]`: absent for Unit -/
+theorem unitParam_iff {e e' : Ty} (ih : tyKey e = tyKey e' ↔ tyEq e e' = true) :
+    (if e.isUnit then [] else [tyKey e]) = (if e'.isUnit then [] else [tyKey e']) ↔ tyEq e e' = true := by
+  cases h : e.isUnit <;> cases h' : e'.isUnit
+  · simp [ih]
+  · rw [isUnit_eq h', tyEq_unit_right, h]; simp
+  · rw [isUnit_eq h, tyEq_unit_left, h']; simp
+  · rw [isUnit_eq h, isUnit_eq h']; simp [tyEq]
+
 def strValOf : Ty → Option Bytes
   | .strVal v => some v
   | _ => none
@@ -478,17 +502,20 @@ theorem tyKey_iff : ∀ a b : Ty, TyWF a = true → TyWF b = true → (tyKey a =
           subst h2; subst h3
           refine ⟨⟨rfl, rfl⟩, ?_⟩
           by_cases c : lo = 0 ∧ hi = 0
-          · simpa [c, tyKey_iff e e' ha.1 hb.1] using h1
+          · have q : (lo = 0 → hi = 0) := fun _ => c.2
+            simp only [c.1, c.2, not_true_eq_false, and_false, and_self, and_true, false_or, forall_const] at h1
+            exact (unitParam_iff (tyKey_iff e e' ha.1 hb.1)).mp h1
           · have q : (lo = 0 → ¬hi = 0) := fun a b => c ⟨a, b⟩
-            simp only [eq_true q, and_true] at h1
+            simp only [eq_true q, and_true, c, and_false, or_false] at h1
             exact (optParam_iff (tyKey_iff e e' ha.1 hb.1)).mp h1
         · rintro ⟨⟨h2, h3⟩, h1⟩
           subst h2; subst h3
           refine ⟨?_, rfl, rfl⟩
           by_cases c : lo = 0 ∧ hi = 0
-          · simpa [c, tyKey_iff e e' ha.1 hb.1] using h1
+          · simp only [c.1, c.2, not_true_eq_false, and_false, and_self, and_true, false_or, forall_const]
+            exact (unitParam_iff (tyKey_iff e e' ha.1 hb.1)).mpr h1
           · have q : (lo = 0 → ¬hi = 0) := fun a b => c ⟨a, b⟩
-            simp only [eq_true q, and_true]
+            simp only [eq_true q, and_true, c, and_false, or_false]
             exact (optParam_iff (tyKey_iff e e' ha.1 hb.1)).mpr h1
       · intro a ha'; split at ha' <;> simp at ha'; subst ha'; exact tyKey_hd e
       · intro a ha'; split at ha' <;> simp at ha'; subst ha'; exact tyKey_hd e'
